@@ -676,15 +676,19 @@ def sessions(ctx):
     if not ctx.quick:
         ctx.mc('MC_BumpSession', 'MC_BumpSession_thorough.cfg')
     # the generator runs check every clause on every history they print
-    s2c_sessions(ctx, ctx.generate('MC_BumpSession', 'MC_BumpSession_genc.cfg' if ctx.quick else 'MC_BumpSession_genct.cfg'), 'collide', 16 if ctx.quick else 1)
+    # "collide": groups of 16 histories per fresh process (quick); thorough: every history of the quick universe in a process of
+    # its own, the larger universe in groups of 8
+    s2c_sessions(ctx, ctx.generate('MC_BumpSession', 'MC_BumpSession_genc.cfg'), 'collide', 16 if ctx.quick else 1)
+    if not ctx.quick:
+        s2c_sessions(ctx, ctx.generate('MC_BumpSession', 'MC_BumpSession_genct.cfg'), 'collide', 8)
     probe = ctx.generate('MC_BumpSession', 'MC_BumpSession_gen.cfg' if ctx.quick else 'MC_BumpSession_gent.cfg')
     _PRINTED[:] = sorted(probe, key=json.dumps)[::max(1, len(probe) // 4)][:4]
     s2c_sessions(ctx, probe, 'probe', 0)
     if not ctx.quick:
         s2c_sessions(ctx, ctx.generate('MC_BumpSession', 'MC_BumpSession_genf.cfg'), 'free', 0)
-        sim = ctx.generate('MC_BumpSession', 'MC_BumpSession_sim.cfg', simulate=4000, depth=9, seed=ctx.seed + 9, workers=1)
+        sim = ctx.generate('MC_BumpSession', 'MC_BumpSession_sim.cfg', simulate=400, depth=9, seed=ctx.seed + 9, workers=1)
         s2c_sessions(ctx, sim, 'sim', 0)
-        s2c_sessions(ctx, sim[:400], 'sim_fresh', 1)
+        s2c_sessions(ctx, sim[:320], 'sim_fresh', 1)
     s2c_real(ctx, ctx.generate('MC_BumpSession', 'MC_BumpSession_genr.cfg'))
 
 
@@ -696,7 +700,16 @@ def run(ctx):
                 'x n in -60..60 x 9 unit letters in both cases + int + timedelta, grouped by the abstraction the spec factors '
                 'through and validated group by group (with a recomputed witness) by Trace_Bump; random intraday / timedelta / '
                 'compound calls validated one by one. Non-trivial = the bump crosses a weekend (days moved != n), overflows a '
-                'month or changes the year, or is a compound tenor; distinct by abstract key.')
+                'month or changes the year, or is a compound tenor; distinct by abstract key. '
+                'SESSIONS (BumpSession.tla / MC_BumpSession): a caller owns start objects (datetime, subclass, Timestamp, date, '
+                'numpy datetime64 D/s/us/ns, yyyymmdd int, ISO strings) and lists of bumps; one action per public call (dt_bump / dt '
+                'with the list itself, its elements as arguments, its strings concatenated, a literal bump) and the caller\'s own '
+                'edits between calls; clauses ArgumentsUntouched, ResultIsLaw, NoMemory, SpellingIrrelevant, RealisationIrrelevant, '
+                'ListIsCompound on every history, mechanism variants queue / memo / asis must each violate one. S2C: every printed '
+                'history replayed on shared objects (collide histories A;B;A in fresh processes), each step\'s result and the caller\'s '
+                'lists afterwards == what TLC printed (clauses of the statement, argument_changed); single calls over every '
+                'realisation of start and bump. C2S: random sessions of 4-12 actions folded by Trace_Bump (SessVerdict); corrupted '
+                'copies of printed histories must be rejected.')
     # one action only (Next: the next start day of the block): -coverage would triple the cost for nothing;
     # that the action is taken is checked directly
     r = ctx.mc('MC_Bump', 'MC_Bump_quick.cfg' if ctx.quick else 'MC_Bump_thorough.cfg', coverage=False)
@@ -707,7 +720,7 @@ def run(ctx):
     s2c_units(ctx, ctx.generate('MC_Bump', 'MC_Bump_genU.cfg' if ctx.quick else 'MC_Bump_genU2.cfg'))
     s2c_compound(ctx, ctx.generate('MC_Bump', 'MC_Bump_genC.cfg' if ctx.quick else 'MC_Bump_genC2.cfg'))
     if ctx.quick:
-        c2s(ctx, [year_range(1999, 2001), year_range(2099, 2101)], 10000, 3, 1500)     # upper-case letters for every third n
+        c2s(ctx, [year_range(1999, 2001), year_range(2099, 2101)], 10000, 3, 1000)     # upper-case letters for every third n
     else:
         c2s(ctx, [(FIRST, LAST + 1)], 200000, 2, 40000)               # upper-case letters for every second n
     ctx.exhaustive = False
@@ -721,6 +734,11 @@ def run(ctx):
         'month / quarter / year units are exercised from midnight only (in compound tenors: only while the running instant is a midnight); '
         'the law "monotone in t" is read on the date: the time of day is carried along, so two instants of one weekend may swap '
         '(the statement itself fixes the roll to Monday)',
+        'sessions: the caller\'s lists after a call are projected through the table of the objects the session rendered (identity, else '
+        'equal value of the same type; anything else is "foreign"); bumps come as lists (the as_list spelling), never as tuples / several '
+        'lists (dt_bump raises TypeError for those today: outside the statement); numpy.timedelta64 bumps, numpy-integer yyyymmdd starts '
+        'and bool bumps are not exercised (the first two raise today); np_ns starts only 1700-2250 (int64 nanoseconds); quick replays '
+        'the collide histories in groups of 16 per fresh process (two groupings), thorough one process per history',
         'model-checking verdicts hold for n in -60..60 and the years listed in the cfg; quick C2S scans 1999-2001 and 2099-2101, thorough the whole '
         'cycle 1900-2299; dt(bump) relative to today, time zones and the named tenors spot/on/tn/sn are not exercised',
     ]
